@@ -248,6 +248,12 @@ func makeTypeHasMethodFilter(src, varname string, fn *types.Func) filterFunc {
 
 func makeTypeHasPointersFilter(src, varname string) filterFunc {
 	return func(params *filterParams) matchFilterResult {
+		if list := asExprSlice(params.subNode(varname)); list != nil {
+			return exprListFilterApply(src, list.GetExprSlice(), func(x ast.Expr) bool {
+				return typeHasPointers(params.typeofNode(x))
+			})
+		}
+
 		typ := params.typeofNode(params.subExpr(varname))
 		if typeHasPointers(typ) {
 			return filterSuccess
@@ -256,51 +262,48 @@ func makeTypeHasPointersFilter(src, varname string) filterFunc {
 	}
 }
 
-func makeTypeIsIntUintFilter(src, varname string, underlying bool, kind types.BasicKind) filterFunc {
-	return func(params *filterParams) matchFilterResult {
-		typ := params.typeofNode(params.subExpr(varname))
+// makeBasicTypeFilter creates a filter that accepts expressions of a basic type
+// (or, with underlying, of a type whose underlying type is basic) satisfying pred.
+func makeBasicTypeFilter(src, varname string, underlying bool, pred func(*types.Basic) bool) filterFunc {
+	check := func(typ types.Type) bool {
 		if underlying {
 			typ = typ.Underlying()
 		}
-		if basicType, ok := types.Unalias(typ).(*types.Basic); ok {
-			first := kind
-			last := kind + 4
-			if basicType.Kind() >= first && basicType.Kind() <= last {
-				return filterSuccess
-			}
+		basicType, ok := types.Unalias(typ).(*types.Basic)
+		return ok && pred(basicType)
+	}
+	return func(params *filterParams) matchFilterResult {
+		if list := asExprSlice(params.subNode(varname)); list != nil {
+			return exprListFilterApply(src, list.GetExprSlice(), func(x ast.Expr) bool {
+				return check(params.typeofNode(x))
+			})
+		}
+
+		if check(params.typeofNode(params.subExpr(varname))) {
+			return filterSuccess
 		}
 		return filterFailure(src)
 	}
+}
+
+func makeTypeIsIntUintFilter(src, varname string, underlying bool, kind types.BasicKind) filterFunc {
+	first := kind
+	last := kind + 4
+	return makeBasicTypeFilter(src, varname, underlying, func(basicType *types.Basic) bool {
+		return basicType.Kind() >= first && basicType.Kind() <= last
+	})
 }
 
 func makeTypeIsSignedFilter(src, varname string, underlying bool) filterFunc {
-	return func(params *filterParams) matchFilterResult {
-		typ := params.typeofNode(params.subExpr(varname))
-		if underlying {
-			typ = typ.Underlying()
-		}
-		if basicType, ok := types.Unalias(typ).(*types.Basic); ok {
-			if basicType.Info()&types.IsInteger != 0 && basicType.Info()&types.IsUnsigned == 0 {
-				return filterSuccess
-			}
-		}
-		return filterFailure(src)
-	}
+	return makeBasicTypeFilter(src, varname, underlying, func(basicType *types.Basic) bool {
+		return basicType.Info()&types.IsInteger != 0 && basicType.Info()&types.IsUnsigned == 0
+	})
 }
 
 func makeTypeOfKindFilter(src, varname string, underlying bool, kind types.BasicInfo) filterFunc {
-	return func(params *filterParams) matchFilterResult {
-		typ := params.typeofNode(params.subExpr(varname))
-		if underlying {
-			typ = typ.Underlying()
-		}
-		if basicType, ok := types.Unalias(typ).(*types.Basic); ok {
-			if basicType.Info()&kind != 0 {
-				return filterSuccess
-			}
-		}
-		return filterFailure(src)
-	}
+	return makeBasicTypeFilter(src, varname, underlying, func(basicType *types.Basic) bool {
+		return basicType.Info()&kind != 0
+	})
 }
 
 func makeTypesIdenticalFilter(src, lhsVarname, rhsVarname string) filterFunc {
@@ -411,42 +414,60 @@ func makeLineFilter(src, varname string, op token.Token, rhsVarname string) filt
 }
 
 func makeObjectIsVariadicParamFilter(src, varname string) filterFunc {
-	return func(params *filterParams) matchFilterResult {
+	isVariadicParam := func(params *filterParams, e ast.Expr) bool {
 		if params.currentFunc == nil {
-			return filterFailure(src)
+			return false
 		}
 		funcObj, ok := params.ctx.Types.ObjectOf(params.currentFunc.Name).(*types.Func)
 		if !ok {
-			return filterFailure(src)
+			return false
 		}
 		funcSig := funcObj.Type().(*types.Signature)
 		if !funcSig.Variadic() {
-			return filterFailure(src)
+			return false
 		}
 		paramObj := funcSig.Params().At(funcSig.Params().Len() - 1)
-		obj := params.ctx.Types.ObjectOf(identOf(params.subExpr(varname)))
-		if paramObj != obj {
-			return filterFailure(src)
+		obj := params.ctx.Types.ObjectOf(identOf(e))
+		return paramObj == obj
+	}
+
+	return func(params *filterParams) matchFilterResult {
+		if list := asExprSlice(params.subNode(varname)); list != nil {
+			return exprListFilterApply(src, list.GetExprSlice(), func(x ast.Expr) bool {
+				return isVariadicParam(params, x)
+			})
 		}
-		return filterSuccess
+
+		if isVariadicParam(params, params.subExpr(varname)) {
+			return filterSuccess
+		}
+		return filterFailure(src)
 	}
 }
 
 func makeObjectIsGlobalFilter(src, varname string) filterFunc {
-	return func(params *filterParams) matchFilterResult {
-		ident := identOf(params.subExpr(varname))
+	isGlobal := func(params *filterParams, e ast.Expr) bool {
+		ident := identOf(e)
 		if ident == nil {
-			return filterFailure(src) // Not an identifier: no object to talk about
+			return false // Not an identifier: no object to talk about
 		}
 		obj := params.ctx.Types.ObjectOf(ident)
 		if obj == nil {
-			return filterFailure(src)
+			return false
 		}
-		globalScope := params.ctx.Pkg.Scope()
-		if obj.Parent() == globalScope {
-			return filterSuccess
+		return obj.Parent() == params.ctx.Pkg.Scope()
+	}
+
+	return func(params *filterParams) matchFilterResult {
+		if list := asExprSlice(params.subNode(varname)); list != nil {
+			return exprListFilterApply(src, list.GetExprSlice(), func(x ast.Expr) bool {
+				return isGlobal(params, x)
+			})
 		}
 
+		if isGlobal(params, params.subExpr(varname)) {
+			return filterSuccess
+		}
 		return filterFailure(src)
 	}
 }
